@@ -56,11 +56,10 @@ Definition pc_ok (disk : list entry) (th : thread) : Prop :=
   | _ => t_entry th = None
   end.
 
-(* a metadata write that replays an idempotency key stored by ANOTHER kind of write answers success although it
-   wrote nothing (SaveMeta / DeleteMetadata never look at the stored entry): known finding *)
-Definition replay_mismatch (disk : list entry) (th : thread) (x : option nat) : Prop :=
-  tx_th th = false /\ x = None /\ rq_ik (t_req th) <> 0%N /\ t_entry th = None /\
-  exists e, In e disk /\ e_ik e = rq_ik (t_req th) /\ same_kind (e_kind e) (rq_kind (t_req th)) = false.
+(* [is_outcome_of rq e] (the test of executionContext.run before it answers a stored log again) implies that the
+   stored entry has the kind of the request *)
+Lemma is_outcome_same_kind rq e : is_outcome_of rq e = true -> same_kind (e_kind e) (rq_kind rq) = true.
+Proof. unfold is_outcome_of. destruct (rq_kind rq), (e_kind e); simpl; intros H; auto; discriminate. Qed.
 
 (* what holds of one thread, given the disk, the generation and the uid counter *)
 Record tinv (disk : list entry) (g uid : nat) (t : tid) (th : thread) : Prop := {
@@ -72,7 +71,7 @@ Record tinv (disk : list entry) (g uid : nat) (t : tid) (th : thread) : Prop := 
   ti_entry : forall e, t_entry th = Some e ->
       e_owner e = t /\ e_txid e = t_txid th /\ e_kind e = rq_kind (t_req th) /\ dry_th th = false /\ e_uid e < uid;
   ti_ok : forall x, t_resp th = Some (ROk x) -> dry_th th = false ->
-      (exists e, In e disk /\ answers t th x e) \/ replay_mismatch disk th x;
+      exists e, In e disk /\ answers t th x e;
   ti_err : forall err, t_resp th = Some (RErr err) -> t_entry th = None
 }.
 
@@ -102,9 +101,7 @@ Proof.
     + destruct H5 as [A B]; split; auto. destruct (dry_th th); auto. destruct A as (e & A1 & A2); eauto.
     + destruct H5 as [A|(e & A1 & A2 & A3)]; [left; auto|right; exists e; auto].
   - intros e He. destruct (H6 e He) as (A & B & C & D & E). repeat split; auto. lia.
-  - intros x Hx Hd. destruct (H7 x Hx Hd) as [(e & A & B)|(A & B & C & D & e & E1 & E2)].
-    + left. exists e; split; auto.
-    + right. repeat split; auto. exists e. split; auto.
+  - intros x Hx Hd. destruct (H7 x Hx Hd) as (e & A & B). exists e; split; auto.
 Qed.
 
 Lemma Inv_init : Inv init.
@@ -300,7 +297,7 @@ Lemma tinv_step disk g uid t th th' :
   (tx_th th = false -> meta_pc (t_pc th') = true) ->
   pc_ok disk th' ->
   (forall x, t_resp th' = Some (ROk x) -> dry_th th = false ->
-      (exists e, In e disk /\ answers t th x e) \/ replay_mismatch disk th x) ->
+      exists e, In e disk /\ answers t th x e) ->
   (forall err, t_resp th' = Some (RErr err) -> t_entry th = None) ->
   tinv disk g uid t th'.
 Proof.
@@ -314,9 +311,8 @@ Proof.
     destruct (H6 e He) as (A & B & C & D & E). repeat split; auto.
     destruct Htx as [Htx|[_ Htx]]; congruence.
   - intros x Hx. unfold dry_th. rewrite Hrq. intros Hd.
-    destruct (Hok x Hx Hd) as [(e & A & B)|(A & B & C & D & E)].
-    + left. exists e. split; auto. unfold answers in *. rewrite Hrq. auto.
-    + right. unfold replay_mismatch, tx_th in *. rewrite Hrq, Hent. auto.
+    destruct (Hok x Hx Hd) as (e & A & B).
+    exists e. split; auto. unfold answers in *. rewrite Hrq. auto.
   - intros err He. rewrite Hent. eauto.
 Qed.
 
@@ -448,14 +444,11 @@ Proof.
     split; auto. split; auto. destruct (find_by_ik _ _) eqn:Hf; auto. apply find_by_ik_some in Hf. auto.
   - (* PIkLookup *)
     destruct hit as [e|]; repeat match goal with H : _ /\ _ |- _ => destruct H end.
-    + match type of Hres with (if ?c then _ else _) = _ => destruct c eqn:Hk end;
-        [|destruct (is_tx_kind (rq_kind (t_req th))) eqn:Htk]; injection Hres as <-;
+    + (* the stored entry is answered again only when it is the outcome of this request; otherwise refused *)
+      destruct (is_outcome_of (t_req th) e) eqn:Hk; injection Hres as <-;
         silent_case Hlook Hg; step_tac Hti; tfin.
-      * intros x Hx Hd. inversion Hx; subst x. left. exists e. split; [assumption|]. unfold answers.
-        split; [reflexivity|]. split; [exact Hk|]. right; split; assumption.
-      * (* a metadata write replaying a key stored by another kind of write: success, nothing written *)
-        intros x Hx Hd. inversion Hx; subst x. right. unfold replay_mismatch, tx_th.
-        repeat (split; [assumption || reflexivity|]). exists e. split; [assumption|]. split; [assumption|exact Hk].
+      intros x Hx Hd. inversion Hx; subst x. exists e. split; [assumption|]. unfold answers.
+      split; [reflexivity|]. split; [apply is_outcome_same_kind; exact Hk|]. right; split; assumption.
     + injection Hres as <-. apply silent_enter.
       * intros th0 Hl0; rewrite Hlook in Hl0; inversion Hl0; subst; exact Hg.
       * rewrite Hlook. assumption.
@@ -500,7 +493,7 @@ Proof.
       destruct H as (e0 & He0 & Hin). congruence.
     + step_tac Hti; tfin.
       intros x Hx Hd. unfold dry_th in Hd. inversion Hx; subst x. rewrite Hd in H. destruct H as (e & He & Hin).
-      left. exists e. split; auto. destruct (T6 e He) as (A & B & C & _). destruct (T4 eq_refl) as [Htx _].
+      exists e. split; auto. destruct (T6 e He) as (A & B & C & _). destruct (T4 eq_refl) as [Htx _].
       unfold answers. split; [congruence|]. split; [rewrite C; apply same_kind_refl|]. left; auto.
   - (* PUnlocked *)
     assert (Hfin : forall e, t_entry th = Some e -> In e (persisted s)).
@@ -510,7 +503,7 @@ Proof.
     + intros _ _. destruct T5 as [[A _]|(e0 & _ & _ & _ & B)]; auto. congruence.
     + intros x Hx Hd. unfold dry_th in Hd. inversion Hx; subst x.
       destruct T5 as [[_ [A|[A|A]]]|(e & He & Hin & _)]; try congruence.
-      left. exists e. split; auto. destruct (T6 e He) as (A & B & C & _).
+      exists e. split; auto. destruct (T6 e He) as (A & B & C & _).
       unfold answers. split; [congruence|]. split; [rewrite C; apply same_kind_refl|]. left; auto.
     + intros _ _. destruct T5 as [[A _]|(e0 & _ & _ & B & _)]; auto. congruence.
 Qed.
